@@ -222,6 +222,29 @@ def drive(a, b, c, d):
     return f(a, pick(c, 3))
 ''', vars=["r", "e"], forms=["try", "except-as", "else", "finally", "propagating exception"], ctx=["r", "x"])
 
+T("try_unnamed", '''
+def f(x, sel):
+    r = x
+    try:
+        if sel == 1:
+            raise Boom(x)
+        if sel == 2:
+            raise KeyError(x)
+        r = r + 1
+    except Boom:
+        r = r * 2
+        s = r - 1
+    except:
+        r = -r
+        s = 0
+    else:
+        s = r + 5
+    return (r, s)
+
+def drive(a, b, c, d):
+    return f(a, pick(c, 3))
+''', vars=["r", "s"], forms=["except without a name", "bare except"], ctx=["r", "x"])
+
 T("try_finally_return", '''
 def f(x, sel):
     for i in range(2):
